@@ -267,6 +267,31 @@ def shard_grid(ctx, shard, nshards, m3):
         ctx.nt_bulk((m3 - 1) ** 3)
 
 
+def boundary_values():
+    """Operands at and next to every branch point of the crisp norms: 0, 1, 1/2, their float neighbours, values within
+    the library's comparison tolerance (1e-3) of 0 and 1, and magnitudes whose products underflow."""
+    vals = {0.0, 1.0, 0.5, 0.25, 0.75, 0.3, 0.7, 1e-300, 1e-200, 2.0 ** -600, 5e-324, 1e-17, 1e-9, 1e-4, 5e-4, 1e-3, 2e-3,
+            0.999, 0.9995, 0.9999, 0.998, 1 - 1e-9}
+    for k in (1, 2, 10, 11, 20, 52, 53):
+        vals.add(2.0 ** -k)
+        vals.add(1.0 - 2.0 ** -k)
+    for v in (0.0, 0.5, 1.0):
+        vals.add(min(1.0, max(0.0, math.nextafter(v, 2.0))))
+        vals.add(min(1.0, max(0.0, math.nextafter(v, -1.0))))
+    return sorted(vals)
+
+
+def shard_boundary(ctx, shard, nshards):
+    names = TNORMS + SNORMS
+    vals = boundary_values()
+    for idx, name in enumerate(names):
+        if idx % max(nshards, 1) != (shard - 1 if nshards > 1 else 0):
+            continue
+        pts = [[a, b] for a in vals for b in vals]
+        ctx.direct("pairs", check_pairs, [{"norm": name, "pts": pts, "exact": False, "shape": None}])
+        ctx.cls("boundary_pairs", len(pts))
+
+
 def shard_random(ctx, shard, nshards, ex):
     ctx.hyp("pairs", pair_cases(), check_pairs, ex)
     ctx.hyp("triples", triple_cases(), check_triples, ex)
@@ -285,10 +310,12 @@ def run(ctx) -> None:
     mod = sys.modules[__name__]
     if ctx.tier == "quick":
         runner.run_sharded(ctx, mod, "shard_grid", 8, m3=16)
+        runner.run_sharded(ctx, mod, "shard_boundary", 8)
         shard_random(ctx, 0, 1, 500)
         m3 = 16
     else:
         runner.run_sharded(ctx, mod, "shard_grid", 16, m3=32)
+        runner.run_sharded(ctx, mod, "shard_boundary", 16)
         runner.run_sharded(ctx, mod, "shard_random", 16, ex=4000)
         m3 = 32
     ctx.exhaustive_parts.append(f"all 16 norms x all (a,b) on k/64 (4225 pairs: formula, range, bounds, commutativity, "
